@@ -121,7 +121,14 @@ class StaticFileHandler(RequestHandler):
             # Try each index filename in order (per Gemini best practices)
             index_found = False
             for index_name in self.default_indices:
-                index_path = file_path / index_name
+                # The index file may itself be a symlink: resolve it and apply
+                # the same containment check as for directly requested files
+                try:
+                    index_path = (file_path / index_name).resolve()
+                except (ValueError, OSError, RuntimeError):
+                    continue
+                if not self._is_safe_path(index_path):
+                    continue
                 if index_path.exists() and index_path.is_file():
                     file_path = index_path
                     index_found = True
